@@ -1,6 +1,7 @@
 package ir
 
 import (
+	"fmt"
 	"go/ast"
 	"go/token"
 	"go/types"
@@ -998,4 +999,266 @@ func (p *Prog) mutatesReceiver(fn *types.Func, depth int) bool {
 	})
 	p.mutRecv[fn] = mut
 	return mut
+}
+
+// Searches. `slices.ContainsFunc(S, p)`, `slices.IndexFunc(S, p)`,
+// `slices.Contains(S, v)`, `slices.Index(S, v)` and `slices.EqualFunc(X, Y, p)`
+// tested directly by an if statement are loops in library clothing. desugarSearch
+// rewrites (in place) such an if into the loop it abbreviates, jumping into
+// the branch that the search result selects:
+//
+//	if slices.ContainsFunc(S, p) { A } else { B }
+//	  →  { for _, e := range S { if p(e) { goto then } }; goto else; if _ { then: A } else { else: B } }
+//
+// so that path rules see `p(e)` guarding A per element, exactly as for the
+// hand-written loop. The residual if is never evaluated (both branches are
+// entered by jumps only); it just keeps the two branches in place.
+func (p *Prog) desugarSearch(info *types.Info, body *ast.BlockStmt) {
+	ast.Inspect(body, func(n ast.Node) bool {
+		switch t := n.(type) {
+		case *ast.BlockStmt:
+			t.List = p.desugarList(info, t.List)
+		case *ast.CaseClause:
+			t.Body = p.desugarList(info, t.Body)
+		case *ast.CommClause:
+			t.Body = p.desugarList(info, t.Body)
+		}
+		return true
+	})
+}
+
+func (p *Prog) desugarList(info *types.Info, list []ast.Stmt) []ast.Stmt {
+	var out []ast.Stmt
+	for _, s := range list {
+		if ifs, ok := s.(*ast.IfStmt); ok {
+			if repl := p.desugarIf(info, ifs); repl != nil {
+				out = append(out, repl...)
+				continue
+			}
+		}
+		out = append(out, s)
+	}
+	return out
+}
+
+func slicesCall(info *types.Info, e ast.Expr) (*ast.CallExpr, string) {
+	call, ok := ast.Unparen(e).(*ast.CallExpr)
+	if !ok {
+		return nil, ""
+	}
+	sel, ok := ast.Unparen(call.Fun).(*ast.SelectorExpr)
+	if !ok {
+		// explicit instantiation slices.F[T]
+		if ix, ok := ast.Unparen(call.Fun).(*ast.IndexExpr); ok {
+			sel, _ = ast.Unparen(ix.X).(*ast.SelectorExpr)
+		}
+		if sel == nil {
+			return nil, ""
+		}
+	}
+	fn, ok := info.Uses[sel.Sel].(*types.Func)
+	if !ok || fn.Pkg() == nil || fn.Pkg().Path() != "slices" {
+		return nil, ""
+	}
+	return call, fn.Name()
+}
+
+func (p *Prog) desugarIf(info *types.Info, ifs *ast.IfStmt) []ast.Stmt {
+	at := ifs.Pos()
+	// which search, and on which outcome is the then-branch taken?
+	var call *ast.CallExpr
+	var name string
+	thenOnFound := true
+	var idxObj types.Object
+	var idxIdent *ast.Ident
+	if ifs.Init == nil {
+		cond := ast.Unparen(ifs.Cond)
+		if u, ok := cond.(*ast.UnaryExpr); ok && u.Op == token.NOT {
+			cond, thenOnFound = ast.Unparen(u.X), false
+		}
+		call, name = slicesCall(info, cond)
+		switch name {
+		case "ContainsFunc", "Contains", "EqualFunc":
+		default:
+			return nil
+		}
+	} else {
+		as, ok := ifs.Init.(*ast.AssignStmt)
+		if !ok || as.Tok != token.DEFINE || len(as.Lhs) != 1 || len(as.Rhs) != 1 {
+			return nil
+		}
+		call, name = slicesCall(info, as.Rhs[0])
+		if name != "IndexFunc" && name != "Index" {
+			return nil
+		}
+		idxIdent, _ = as.Lhs[0].(*ast.Ident)
+		if idxIdent == nil || info.Defs[idxIdent] == nil {
+			return nil
+		}
+		idxObj = info.Defs[idxIdent]
+		be, ok := ast.Unparen(ifs.Cond).(*ast.BinaryExpr)
+		if !ok {
+			return nil
+		}
+		id, ok := ast.Unparen(be.X).(*ast.Ident)
+		if !ok || info.Uses[id] != idxObj {
+			return nil
+		}
+		tv, ok := info.Types[be.Y]
+		if !ok || tv.Value == nil {
+			return nil
+		}
+		switch be.Op.String() + tv.Value.String() {
+		case ">=0", "!=-1", ">-1":
+			thenOnFound = true
+		case "<0", "==-1", "<=-1":
+			thenOnFound = false
+		default:
+			return nil
+		}
+		// the index is meaningless on the not-found side: it must not be used there
+		notFound := ast.Node(ifs.Else)
+		if !thenOnFound {
+			notFound = ifs.Body
+		}
+		used := false
+		if notFound != nil && !isNilNode(notFound) {
+			ast.Inspect(notFound, func(n ast.Node) bool {
+				if x, ok := n.(*ast.Ident); ok && info.Uses[x] == idxObj {
+					used = true
+				}
+				return !used
+			})
+		}
+		if used {
+			return nil
+		}
+	}
+	if call == nil || call.Ellipsis.IsValid() {
+		return nil
+	}
+	nargs := 2
+	if name == "EqualFunc" {
+		nargs = 3
+	}
+	if len(call.Args) != nargs {
+		return nil
+	}
+	S := call.Args[0]
+	st, ok := info.TypeOf(S).Underlying().(*types.Slice)
+	if !ok {
+		return nil
+	}
+	if containsEffect(info, S) {
+		return nil
+	}
+	pkg := p.pkgOf(info)
+	p.normSeq++
+	seq := p.normSeq
+	mkVar := func(name string, t types.Type) (*types.Var, *ast.Ident) {
+		v := types.NewVar(at, pkg, fmt.Sprintf("%s%d", name, seq), t)
+		id := &ast.Ident{NamePos: at, Name: v.Name()}
+		info.Defs[id] = v
+		return v, id
+	}
+	use := func(v types.Object) *ast.Ident {
+		id := &ast.Ident{NamePos: at, Name: v.Name()}
+		info.Uses[id] = v
+		return id
+	}
+	boolT := types.Typ[types.Bool]
+	thenL, elseL := fmt.Sprintf("srch%d_then", seq), fmt.Sprintf("srch%d_else", seq)
+	foundL, missL := thenL, elseL
+	if !thenOnFound {
+		foundL, missL = elseL, thenL
+	}
+	elem, elemDef := mkVar("elem", st.Elem())
+	var key ast.Expr = &ast.Ident{NamePos: at, Name: "_"}
+	if idxIdent != nil {
+		key = idxIdent // the search's index variable becomes the loop's key
+	}
+	// the per-element test
+	var test ast.Expr
+	var pre []ast.Stmt
+	switch name {
+	case "ContainsFunc", "IndexFunc":
+		c := &ast.CallExpr{Fun: call.Args[1], Lparen: at, Args: []ast.Expr{use(elem)}, Rparen: at}
+		info.Types[c] = types.TypeAndValue{Type: boolT}
+		test = c
+	case "Contains", "Index":
+		if containsEffect(info, call.Args[1]) {
+			return nil
+		}
+		b := &ast.BinaryExpr{X: use(elem), OpPos: at, Op: token.EQL, Y: call.Args[1]}
+		info.Types[b] = types.TypeAndValue{Type: boolT}
+		test = b
+	case "EqualFunc":
+		Y := call.Args[1]
+		if _, ok := info.TypeOf(Y).Underlying().(*types.Slice); !ok || containsEffect(info, Y) || !simplePath(Y) || !simplePath(S) {
+			return nil
+		}
+		yt := info.TypeOf(Y).Underlying().(*types.Slice)
+		kv, kid := mkVar("i", types.Typ[types.Int])
+		key = kid
+		lenOf := func(x ast.Expr) ast.Expr {
+			lid := &ast.Ident{NamePos: at, Name: "len"}
+			info.Uses[lid] = types.Universe.Lookup("len")
+			cp := &cloner{p: p, info: info, objs: map[types.Object]types.Object{}}
+			c := &ast.CallExpr{Fun: lid, Lparen: at, Args: []ast.Expr{cp.substCopy(x, at)}, Rparen: at}
+			info.Types[c] = types.TypeAndValue{Type: types.Typ[types.Int]}
+			return c
+		}
+		ne := &ast.BinaryExpr{X: lenOf(S), OpPos: at, Op: token.NEQ, Y: lenOf(Y)}
+		info.Types[ne] = types.TypeAndValue{Type: boolT}
+		// unequal lengths: not equal
+		pre = append(pre, &ast.IfStmt{If: at, Cond: ne, Body: &ast.BlockStmt{Lbrace: at, List: []ast.Stmt{gotoStmt(missL, at)}, Rbrace: at}})
+		cp := &cloner{p: p, info: info, objs: map[types.Object]types.Object{}}
+		yi := &ast.IndexExpr{X: cp.substCopy(Y, at), Lbrack: at, Index: use(kv), Rbrack: at}
+		info.Types[yi] = types.TypeAndValue{Type: yt.Elem()}
+		c := &ast.CallExpr{Fun: call.Args[2], Lparen: at, Args: []ast.Expr{use(elem), yi}, Rparen: at}
+		info.Types[c] = types.TypeAndValue{Type: boolT}
+		nc := &ast.UnaryExpr{OpPos: at, Op: token.NOT, X: c}
+		info.Types[nc] = types.TypeAndValue{Type: boolT}
+		// EqualFunc is "all match": a mismatch is the search's hit, and it means not-equal
+		test = nc
+		foundL, missL = missL, foundL
+	}
+	loop := &ast.RangeStmt{For: at, Key: key, Value: elemDef, TokPos: at, Tok: token.DEFINE, Range: at, X: S,
+		Body: &ast.BlockStmt{Lbrace: at, Rbrace: at, List: []ast.Stmt{
+			&ast.IfStmt{If: at, Cond: test, Body: &ast.BlockStmt{Lbrace: at, List: []ast.Stmt{gotoStmt(foundL, at)}, Rbrace: at}},
+		}}}
+	// the residual if keeps the branches; it is entered by jumps only
+	_, nvDef := mkVar("unreached", boolT)
+	decl := &ast.DeclStmt{Decl: &ast.GenDecl{TokPos: at, Tok: token.VAR, Specs: []ast.Spec{&ast.ValueSpec{Names: []*ast.Ident{nvDef}}}}}
+	ifs.Init = nil
+	ifs.Cond = use(info.Defs[nvDef])
+	ifs.Body.List = append([]ast.Stmt{labeled(thenL, at)}, ifs.Body.List...)
+	var tail []ast.Stmt
+	switch e := ifs.Else.(type) {
+	case nil:
+		tail = append(tail, labeled(elseL, ifs.End()))
+	case *ast.BlockStmt:
+		e.List = append([]ast.Stmt{labeled(elseL, at)}, e.List...)
+	default:
+		ifs.Else = &ast.LabeledStmt{Label: &ast.Ident{NamePos: at, Name: elseL}, Colon: at, Stmt: e}
+	}
+	out := []ast.Stmt{decl}
+	out = append(out, pre...)
+	out = append(out, loop, gotoStmt(missL, at), ifs)
+	out = append(out, tail...)
+	return []ast.Stmt{&ast.BlockStmt{Lbrace: at, List: out, Rbrace: ifs.End()}}
+}
+
+func isNilNode(n ast.Node) bool {
+	v := reflect.ValueOf(n)
+	return v.Kind() == reflect.Ptr && v.IsNil()
+}
+
+func (p *Prog) pkgOf(info *types.Info) *types.Package {
+	for _, pkg := range p.Roots {
+		if pkg.TypesInfo == info {
+			return pkg.Types
+		}
+	}
+	return nil
 }
